@@ -400,4 +400,15 @@ class PartialJoin(UnaryOperation):
                         done=False,
                         messages=(f"{current.operation} is count-dependent",),
                     )
+                if not self.fixed.columns.isdisjoint(current.columns - current.target.columns):
+                    return UnaryCommutator(
+                        first=None,
+                        second=current.operation,
+                        done=False,
+                        messages=(
+                            f"{current.operation} adds columns "
+                            f"{set(self.fixed.columns & (current.columns - current.target.columns))} "
+                            f"that are also present in {self.fixed}",
+                        ),
+                    )
                 return UnaryCommutator(first=self, second=current.operation)
